@@ -1259,3 +1259,206 @@ def mon_c15(w, F, vd):
     if len([c for c in w.conns if c.keepalive]) >= 2:
         nontriv = True
     vd.nontrivial = nontriv
+
+
+# ====================================================================== C11 / C12
+
+def _stage(ri, ei):
+    """stage of a publish/subscribe/unsubscribe request at event index ei"""
+    tx = [t for t in ri.tx if t.ei < ei]
+    if not tx:
+        return "held_back"
+    if any(t.ei < ei for t in ri.rel):
+        return "pubrel_sent"
+    if len(tx) > 1:
+        return "retransmitted"
+    return "sent"
+
+
+def _loss_kind(w, e):
+    """how the connection came to its end, for the labels"""
+    c = e.c
+    prior = [x for x in w.log[:e.i] if x.c == c and x.k in ("close", "abort")]
+    if not prior:
+        return "loss:%s" % e.d["reason"]
+    p = prior[0]
+    if p.k == "close":
+        return "loss:disconnect()"
+    if p.ctx and p.ctx[0] == "timer":
+        return "loss:timeout_abort"
+    return "loss:protocol_error_abort"
+
+
+def mon_c11(w, F, vd):
+    nontriv = False
+    for e in F.already_called():
+        vd.bad("C11.fired_twice", "AlreadyCalledError in %s" % (e.d["where"],))
+    for e in w.log:
+        if e.k != "lost":
+            continue
+        conn = w.conns[e.c]
+        if conn.clean is not True:
+            continue
+        evs = _ctx_events(w, e)
+        fired = {}
+        for x in evs:
+            if x.k == "fire":
+                fired.setdefault(x.d["rid"], []).append(x)
+        for ri in F.info.values():
+            if ri.conn is not conn or not ri.accepted:
+                continue
+            if ri.kind == "publish" and ri.qos == 0:
+                continue
+            if ri.fire is not None and ri.fire[0] < e.i:
+                continue
+            nontriv = True
+            vd.label("c11:%s:%s" % (ri.kind, _stage(ri, e.i)), _loss_kind(w, e))
+            fs = fired.get(ri.rid, [])
+            if not fs:
+                vd.bad("C11.not_failed", "%s #%d (%s) still pending after the clean-session connection was lost" % (
+                    ri.kind, ri.rid, _stage(ri, e.i)))
+                continue
+            if len(ri.req.fires) != 1:
+                vd.bad("C11.fired_twice", "%s #%d fired %d times" % (ri.kind, ri.rid, len(ri.req.fires)))
+            f = ri.req.fires[0]
+            if f[3] != "err":
+                vd.bad("C11.succeeded_at_loss", "%s #%d succeeded at the loss" % (ri.kind, ri.rid))
+            elif f[4] is not conn.lost_reason:
+                vd.bad("C11.wrong_reason", "%s #%d failed with %s, the loss was %s" % (
+                    ri.kind, ri.rid, type(f[4]).__name__, type(conn.lost_reason).__name__))
+    # nothing of a clean connection is carried over
+    for ri in F.info.values():
+        if ri.conn.clean is not True:
+            continue
+        for t in list(ri.tx) + list(ri.rel):
+            if t.c != ri.conn.idx:
+                vd.bad("C11.carried_over", "%s of %s #%d (made on clean connection %d, %s) written on connection %d" % (
+                    t.kind, ri.kind, ri.rid, ri.conn.idx, "accepted" if ri.accepted else "refused", t.c))
+                break
+    vd.nontrivial = nontriv
+
+
+def mon_c12(w, F, vd):
+    nontriv = False
+    cleared_at = {}        # rid -> event index after which nothing may be written for it
+    for e in F.already_called():
+        vd.bad("C12.fired_twice", "AlreadyCalledError in %s" % (e.d["where"],))
+    pubs = [ri for ri in F.pubs() if ri.accepted]
+    for e in w.log:
+        if e.k == "lost":
+            conn = w.conns[e.c]
+            evs = _ctx_events(w, e)
+            unfinished = [ri for ri in pubs if ri.a == conn.a and ri.qos and ri.req.step <= e.step and
+                          (ri.fire is None or ri.fire[0] > e.i) and ri.req.rid < len(w.reqs)]
+            unfinished = [ri for ri in unfinished if next(x.i for x in w.log if x.k == "api" and x.d["rid"] == ri.rid) < e.i]
+            if conn.clean is False:
+                if unfinished:
+                    nontriv = True
+                    for ri in unfinished:
+                        vd.label("c12:lost:%s" % _stage(ri, e.i))
+                for x in evs:
+                    if x.k == "fire" and x.d["kind"] == "publish":
+                        vd.bad("C12.failed_on_persistent_loss", "publish #%d fired %s(%s) when the persistent-session connection was lost" % (
+                            x.d["rid"], x.d["out"], x.d["val"]))
+            elif conn.clean is True:
+                # carried-over publishes on a clean connection lost before its CONNACK may fail with the
+                # loss reason (C11's rule); they must not survive it
+                for ri in unfinished:
+                    if ri.conn is not conn and not any(x.k == "fire" and x.d["rid"] == ri.rid for x in evs):
+                        vd.bad("C12.survived_clean_connection", "publish #%d carried over into a clean-session connection is still pending after its loss" % ri.rid)
+        elif e.k == "rx" and e.d["desc"][0] == "CONNACK" and e.d["desc"][1] == 0:
+            conn = w.conns[e.c]
+            nxt = w.log[e.i + 1:]
+            became = any(x.k == "phase" and x.c == e.c and x.d["new"] == "connected" and x.step == e.step for x in nxt[:400])
+            if not became:
+                continue
+            evs = _ctx_events(w, e)
+            api_i = dict((x.d["rid"], x.i) for x in w.log if x.k == "api")
+            carried = [ri for ri in pubs if ri.a == conn.a and ri.conn is not conn and api_i[ri.rid] < e.i and
+                       (ri.fire is None or ri.fire[0] > e.i) and ri.rid not in cleared_at]
+            own = [ri for ri in pubs if ri.conn is conn and api_i[ri.rid] < e.i]
+            frames = []
+            for x in evs:
+                if x.k == "write":
+                    for fr in x.d["frames"]:
+                        frames.append((x, fr))
+            if own:
+                vd.label("c12:publish_before_connack")
+            if conn.clean is False:
+                vd.label("c12:resume")
+                exp_rel = [ri for ri in carried if ri.qos == 2 and any(t.ei < e.i for t in ri.rel)
+                           and not any(a_[3] == "PUBCOMP" and a_[0] < e.i for a_ in ri.acks)]
+                exp_pub = [ri for ri in carried if ri.qos and any(t.ei < e.i for t in ri.tx) and ri not in exp_rel
+                           and not any(a_[3] in ("PUBACK", "PUBREC") and a_[0] < e.i for a_ in ri.acks)]
+                exp_pub.sort(key=lambda ri: ri.tx[0].ei)
+                got_rel = [fr[1]["id"] for (x, fr) in frames if fr[0] == "PUBREL"]
+                if sorted(got_rel) != sorted(ri.msgid for ri in exp_rel):
+                    vd.bad("C12.pubrel_resume", "at CONNACK PUBREL ids %s were re-sent, unacknowledged PUBRELs are %s" % (
+                        sorted(got_rel), sorted(ri.msgid for ri in exp_rel)))
+                from .facts import marker_of
+                got_pub = []
+                for (x, fr) in frames:
+                    if fr[0] == "PUBLISH":
+                        rid = marker_of("PUBLISH", fr[1])
+                        ri = F.info.get(rid)
+                        if ri is None:
+                            continue
+                        if ri in exp_rel or (ri.qos == 2 and any(t.ei < e.i for t in ri.rel)):
+                            vd.bad("C12.publish_resent_after_pubrel", "publish #%d: PUBLISH re-sent at CONNACK although its PUBREL is what is outstanding" % rid)
+                        elif ri in exp_pub:
+                            got_pub.append(ri)
+                            first = ri.tx[0]
+                            if not fr[1]["dup"]:
+                                vd.bad("C12.resume_without_dup", "publish #%d re-sent at CONNACK with DUP=0" % rid)
+                            if bytes([fr[2][0] & 0xF7]) + fr[2][1:] != bytes([first.raw[0] & 0xF7]) + first.raw[1:]:
+                                vd.bad("C12.resume_content", "publish #%d re-sent with different id/topic/payload" % rid)
+                        elif ri.conn is conn and any(t.ei < e.i for t in ri.tx):
+                            vd.bad("C12.own_request_resent", "publish #%d was made on this connection before its CONNACK and was re-sent by the resumption" % rid)
+                if [ri.rid for ri in got_pub] != [ri.rid for ri in exp_pub]:
+                    vd.bad("C12.publish_resume", "at CONNACK publishes %s were re-sent, unacknowledged in original order are %s" % (
+                        [ri.rid for ri in got_pub], [ri.rid for ri in exp_pub]))
+                for x in evs:
+                    if x.k == "fire" and x.d["kind"] == "publish":
+                        vd.bad("C12.fired_at_resume", "publish #%d fired %s(%s) inside the persistent CONNACK" % (
+                            x.d["rid"], x.d["out"], x.d["val"]))
+            elif conn.clean is True:
+                vd.label("c12:clean_over_persistent" if carried else "c12:clean")
+                fired = dict((x.d["rid"], x) for x in evs if x.k == "fire" and x.d["kind"] == "publish")
+                for ri in carried:
+                    if not ri.qos:
+                        cleared_at[ri.rid] = e.i
+                        continue
+                    cleared_at[ri.rid] = e.i
+                    x = fired.get(ri.rid)
+                    if x is None:
+                        vd.bad("C12.not_cleared", "publish #%d carried over (%s) was not failed when a clean session was established" % (
+                            ri.rid, _stage(ri, e.i)))
+                    elif x.d["out"] != "err" or x.d["val"] != "MQTTSessionCleared":
+                        vd.bad("C12.cleared_with", "publish #%d carried over fired %s(%s), expected MQTTSessionCleared" % (
+                            ri.rid, x.d["out"], x.d["val"]))
+                for ri in own:
+                    if ri.rid in fired:
+                        vd.bad("C12.own_request_failed", "publish #%d made on this connection before its CONNACK was failed by the session purge (%s)" % (
+                            ri.rid, fired[ri.rid].d["val"]))
+                    for (x, fr) in frames:
+                        if fr[0] == "PUBLISH":
+                            from .facts import marker_of
+                            if marker_of("PUBLISH", fr[1]) == ri.rid and any(t.ei < e.i for t in ri.tx):
+                                vd.bad("C12.own_request_resent", "publish #%d re-sent by the clean CONNACK" % ri.rid)
+    for rid, ei in cleared_at.items():
+        ri = F.info[rid]
+        for t in list(ri.tx) + list(ri.rel):
+            if t.ei > ei:
+                vd.bad("C12.resent_after_clear", "%s of publish #%d written after the session was cleared" % (t.kind, rid))
+                break
+    # the original Deferreds complete on the usual acknowledgements
+    ops = w.ops_done
+    if len(ops) >= 2 and ops[-1][0] == "idle" and ops[-2][0] == "settle":
+        a = ops[-2][1]
+        cur = w.cur.get(a)
+        if cur is not None and cur.phase == "connected" and cur.closed is None and not cur.lost and not w.budget_hit:
+            for ri in pubs:
+                if ri.a == a and ri.qos and ri.fire is None:
+                    vd.bad("C12.never_completed", "publish #%d (first made on connection %d) still pending after the broker answered everything on connection %d" % (
+                        ri.rid, ri.conn.idx, cur.idx))
+    vd.nontrivial = nontriv
